@@ -201,6 +201,11 @@ class SimLoop(base_events.BaseEventLoop):
             if h._cancelled:
                 continue
             self.stat_callbacks += 1
+            # a timer popped because it is due within the clock resolution must never observe a clock
+            # reading before its own deadline (in real time the clock has moved on by then)
+            w = getattr(h, "_when", None)
+            if w is not None and w > self._time:
+                self._time = w
             h._run()
             if self.after_callback is not None:
                 self.after_callback()
